@@ -77,7 +77,7 @@ theorem accTl_eq (evs : List SEv) : ∀ tl, accTl tl evs = (tl || hasTooLong evs
     | store v => simp only [accTl, hasTooLong, ih]
 
 theorem covered_iff (log : List Entry) (mk : Nat → Bool) (lo v : Int) (D : List Nat) :
-    covered log mk lo v D = true ↔ ∀ e ∈ log, lo < e.pos → e.pos ≤ v → mk e.id = true ∨ e.id ∈ D := by
+    covered log mk lo v D = true ↔ ∀ e ∈ log, lo < e.pos → e.pos ≤ v → exempt mk e = true ∨ e.id ∈ D := by
   unfold covered
   simp only [List.all_eq_true, Bool.or_eq_true, decide_eq_true_eq, List.contains_iff_mem]
   constructor
@@ -96,9 +96,25 @@ theorem covered_iff (log : List Entry) (mk : Nat → Bool) (lo v : Int) (D : Lis
         · exact Or.inl (Or.inr h3)
         · exact Or.inr h3
 
+theorem exempt_of_mk (mk : Nat → Bool) (e : Entry) (h : mk e.id = true) : exempt mk e = true := by
+  simp [exempt, h]
+
+theorem exempt_of_zero (mk : Nat → Bool) (e : Entry) (h : e.count = 0) : exempt mk e = true := by
+  simp [exempt, h]
+
+theorem not_exempt (mk : Nat → Bool) (e : Entry) (h : exempt mk e ≠ true) : mk e.id = false ∧ e.count ≠ 0 := by
+  unfold exempt at h
+  cases hm : mk e.id
+  · refine ⟨rfl, ?_⟩
+    intro hc
+    apply h
+    simp [hm, hc]
+  · exfalso; apply h; simp [hm]
+
 /-! ### Tiling -/
 
-theorem tiled_lower (es : List Entry) : ∀ c, tiled c es = true → ∀ f ∈ es, c ≤ f.pos - f.count ∧ c < f.pos := by
+theorem tiled_lower (es : List Entry) : ∀ c, tiled c es = true →
+    ∀ f ∈ es, c ≤ f.pos - f.count ∧ 0 ≤ f.count ∧ 0 < f.pos := by
   induction es with
   | nil => intro c _ f hf; simp at hf
   | cons a as ih =>
@@ -110,13 +126,14 @@ theorem tiled_lower (es : List Entry) : ∀ c, tiled c es = true → ∀ f ∈ e
     · have := ih a.pos h.2 f hf
       omega
 
-/-- In a tiled log, an entry whose position falls inside another entry's range is that entry. -/
+/-- In a tiled log, a position-covering entry whose position falls inside another entry's range is
+that entry. -/
 theorem tiled_unique (es : List Entry) : ∀ c, tiled c es = true → ∀ e ∈ es, ∀ f ∈ es,
-    f.pos - f.count < e.pos → e.pos ≤ f.pos → e = f := by
+    1 ≤ e.count → f.pos - f.count < e.pos → e.pos ≤ f.pos → e = f := by
   induction es with
   | nil => intro c _ e he; simp at he
   | cons a as ih =>
-    intro c h e he f hf h1 h2
+    intro c h e he f hf hc h1 h2
     simp only [tiled, Bool.and_eq_true, decide_eq_true_eq] at h
     simp only [List.mem_cons] at he hf
     rcases he with rfl | he <;> rcases hf with rfl | hf
@@ -125,25 +142,25 @@ theorem tiled_unique (es : List Entry) : ∀ c, tiled c es = true → ∀ e ∈ 
       omega
     · have := tiled_lower as f.pos h.2 e he
       omega
-    · exact ih a.pos h.2 e he f hf h1 h2
+    · exact ih a.pos h.2 e he f hf hc h1 h2
 
 /-- What may sit in a box: the update of a log entry, or a count-0 marker at a positive position. -/
 def Known (log : List Entry) (mk : Nat → Bool) (u : Upd) : Prop :=
   (∃ f ∈ log, f.upd = u) ∨ (u.count = 0 ∧ 0 < u.state ∧ mk u.tag = true)
 
 /-- A batch that is a chain from `cur` to `ns` and consists of log entries (and count-0 markers)
-contains every log entry whose position lies in `(cur, ns]`. -/
-theorem chain_covers (log : List Entry) (mk : Nat → Bool) (c0 : Int) (hc0 : 0 ≤ c0) (ht : tiled c0 log = true)
+contains every position-covering log entry whose position lies in `(cur, ns]`. -/
+theorem chain_covers (log : List Entry) (mk : Nat → Bool) (c0 : Int) (ht : tiled c0 log = true)
     (us : List Upd) :
     ∀ cur ns, chain cur us = some ns → (∀ u ∈ us, Known log mk u) →
-    ∀ e ∈ log, cur < e.pos → e.pos ≤ ns → e.upd ∈ us := by
+    ∀ e ∈ log, 1 ≤ e.count → cur < e.pos → e.pos ≤ ns → e.upd ∈ us := by
   induction us with
   | nil =>
-    intro cur ns h _ e _ h1 h2
+    intro cur ns h _ e _ _ h1 h2
     simp [chain] at h
     omega
   | cons u rest ih =>
-    intro cur ns h hlog e he h1 h2
+    intro cur ns h hlog e he hec h1 h2
     simp only [chain] at h
     split at h
     · rename_i hc
@@ -155,14 +172,14 @@ theorem chain_covers (log : List Entry) (mk : Nat → Bool) (c0 : Int) (hc0 : 0 
           rcases hc with h0 | h1
           · omega
           · exact h1
+        have hus : u.state = f.pos := by rw [← hfu]; rfl
         by_cases hle : e.pos ≤ f.pos
-        · have : e = f := tiled_unique log c0 ht e he f hf (by omega) hle
+        · have : e = f := tiled_unique log c0 ht e he f hf hec (by omega) hle
           subst this
           rw [hfu]; exact List.mem_cons_self ..
-        · have hus : u.state = f.pos := by rw [← hfu]; rfl
-          rw [hus] at h
+        · rw [hus] at h
           exact List.mem_cons_of_mem _
-            (ih f.pos ns h (fun v hv => hlog v (List.mem_cons_of_mem _ hv)) e he (by omega) h2)
+            (ih f.pos ns h (fun v hv => hlog v (List.mem_cons_of_mem _ hv)) e he hec (by omega) h2)
       · -- a count-0 marker: the cursor does not move
         have hcur : u.state = cur := by
           rcases hc with h0 | h1
@@ -170,7 +187,7 @@ theorem chain_covers (log : List Entry) (mk : Nat → Bool) (c0 : Int) (hc0 : 0 
           · omega
         rw [hcur] at h
         exact List.mem_cons_of_mem _
-          (ih cur ns h (fun v hv => hlog v (List.mem_cons_of_mem _ hv)) e he h1 h2)
+          (ih cur ns h (fun v hv => hlog v (List.mem_cons_of_mem _ hv)) e he hec h1 h2)
     · simp at h
 
 /-! ### The invariant -/
@@ -178,7 +195,7 @@ theorem chain_covers (log : List Entry) (mk : Nat → Bool) (c0 : Int) (hc0 : 0 
 /-- Every non-marker log entry above `lo` and at or below the box position is in `D` (or too-long
 was reported), and everything pending in the box is known. -/
 structure Inv (log : List Entry) (mk : Nat → Bool) (lo : Int) (b : Box) (D : List Nat) (tl : Bool) : Prop where
-  cov : tl = true ∨ ∀ e ∈ log, lo < e.pos → e.pos ≤ b.state → mk e.id = true ∨ e.id ∈ D
+  cov : tl = true ∨ ∀ e ∈ log, lo < e.pos → e.pos ≤ b.state → exempt mk e = true ∨ e.id ∈ D
   pend : ∀ u ∈ b.pending, Known log mk u
 
 /-- A well-behaved apply callback: dispatch, then store; markers skipped with `continue`. -/
@@ -197,7 +214,7 @@ theorem callEvs_apply (ns : Int) (ids : List Nat) :
     callEvs ns ids [.dispatch, .store] = (if ids.isEmpty then [] else [.dispatch ids]) ++ [.store ns] := by
   simp [callEvs]
 
-theorem push_step (log : List Entry) (c : ACfg) (hg : GoodCfg c) (c0 lo : Int) (hc0 : 0 ≤ c0)
+theorem push_step (log : List Entry) (c : ACfg) (hg : GoodCfg c) (c0 lo : Int)
     (ht : tiled c0 log = true)
     (b : Box) (D : List Nat) (tl : Bool) (e : Entry) (he : Known log c.isMarker e.upd)
     (hI : Inv log c.isMarker lo b D tl) :
@@ -224,7 +241,7 @@ theorem push_step (log : List Entry) (c : ACfg) (hg : GoodCfg c) (c0 lo : Int) (
     simp only [List.flatMap_cons, List.flatMap_nil, List.append_nil, applyEvs, hg.calls, callEvs_apply]
     have hstate : (handle b e.upd true).1.state = ns := by simpa using h4
     have hcov : tl = true ∨ ∀ f ∈ log, lo < f.pos → f.pos ≤ ns →
-        c.isMarker f.id = true ∨ f.id ∈ batchIds c us ++ D := by
+        exempt c.isMarker f = true ∨ f.id ∈ batchIds c us ++ D := by
       rcases hI.cov with h | h
       · exact Or.inl h
       · right
@@ -233,13 +250,15 @@ theorem push_step (log : List Entry) (c : ACfg) (hg : GoodCfg c) (c0 lo : Int) (
         · rcases h f hf hlo hb with h' | h'
           · exact Or.inl h'
           · exact Or.inr (List.mem_append_right _ h')
-        · have hm := chain_covers log c.isMarker c0 hc0 ht us b.state ns h2 hus f hf (by omega) hle
-          by_cases hmk : c.isMarker f.id = true
-          · exact Or.inl hmk
-          · right
+        · by_cases hex : exempt c.isMarker f = true
+          · exact Or.inl hex
+          · obtain ⟨hmk, hcnt⟩ := not_exempt _ _ hex
+            have hfl := tiled_lower log c0 ht f hf
+            have hm := chain_covers log c.isMarker c0 ht us b.state ns h2 hus f hf (by omega) (by omega) hle
+            right
             apply List.mem_append_left
             rw [mem_batchIds c hg.cont]
-            exact ⟨⟨f.upd, hm, rfl⟩, by simpa using hmk⟩
+            exact ⟨⟨f.upd, hm, rfl⟩, hmk⟩
     by_cases hemp : (batchIds c us).isEmpty = true
     · have hnil : batchIds c us = [] := by simpa using hemp
       simp only [hemp, if_true, List.nil_append, safe, accD, accTl, Bool.and_true]
@@ -270,7 +289,7 @@ theorem seq_step (log : List Entry) (lo : Int) (c : ACfg)
   · -- a difference carrying `direct`
     subst hs
     have hcov : tl = true ∨ ∀ f ∈ log, lo < f.pos → f.pos ≤ x →
-        c.isMarker f.id = true ∨ f.id ∈ direct.map (·.id) ++ D := by
+        exempt c.isMarker f = true ∨ f.id ∈ direct.map (·.id) ++ D := by
       rcases hI.cov with h | h
       · exact Or.inl h
       · right
@@ -288,7 +307,7 @@ theorem seq_step (log : List Entry) (lo : Int) (c : ACfg)
     · subst hemp
       simp only [diffShape, callEvs, List.map_nil, List.isEmpty_nil, if_true, List.nil_append, safe, accD, accTl,
         Bool.and_true]
-      have hcov' : tl = true ∨ ∀ f ∈ log, lo < f.pos → f.pos ≤ x → c.isMarker f.id = true ∨ f.id ∈ D := by
+      have hcov' : tl = true ∨ ∀ f ∈ log, lo < f.pos → f.pos ≤ x → exempt c.isMarker f = true ∨ f.id ∈ D := by
         rcases hcov with h | h
         · exact Or.inl h
         · right; intro f hf h1 h2; simpa using h f hf h1 h2
@@ -307,7 +326,7 @@ theorem seq_step (log : List Entry) (lo : Int) (c : ACfg)
       · simpa using hcov
   · -- an empty difference
     subst hs
-    have hcov : tl = true ∨ ∀ f ∈ log, lo < f.pos → f.pos ≤ x → c.isMarker f.id = true ∨ f.id ∈ D := by
+    have hcov : tl = true ∨ ∀ f ∈ log, lo < f.pos → f.pos ≤ x → exempt c.isMarker f = true ∨ f.id ∈ D := by
       rcases hI.cov with h | h
       · exact Or.inl h
       · right
@@ -333,7 +352,7 @@ theorem seq_step (log : List Entry) (lo : Int) (c : ACfg)
     simp only [cbOnlyShape, callEvs, safe, accD, accTl]
     exact ⟨trivial, Or.inl rfl, hI.pend⟩
 
-theorem srun_inv (log : List Entry) (c : ACfg) (hg : GoodCfg c) (c0 lo : Int) (hc0 : 0 ≤ c0)
+theorem srun_inv (log : List Entry) (c : ACfg) (hg : GoodCfg c) (c0 lo : Int)
     (ht : tiled c0 log = true) (ops : List SOp) :
     ∀ (b : Box) (D : List Nat) (tl : Bool), Inv log c.isMarker lo b D tl → wfRun c log b ops = true →
     safe log c.isMarker lo D tl (srun c b ops).2 = true ∧
@@ -353,7 +372,7 @@ theorem srun_inv (log : List Entry) (c : ACfg) (hg : GoodCfg c) (c0 lo : Int) (h
           rcases this with h | ⟨⟨h1, h2⟩, h3⟩
           · exact Or.inl ⟨e, h, rfl⟩
           · exact Or.inr ⟨h1, h2, h3⟩
-        exact push_step log c hg c0 lo hc0 ht b D tl e he hI
+        exact push_step log c hg c0 lo ht b D tl e he hI
       | clear =>
         simp only [sstep, safe, accD, accTl, true_and]
         exact ⟨hI.cov, hI.pend⟩
@@ -436,7 +455,7 @@ theorem inv_init (log : List Entry) (mk : Nat → Bool) (lo : Int) : Inv log mk 
 
 theorem complete_iff (log : List Entry) (mk : Nat → Bool) (lo : Int) (evs : List SEv) :
     complete' log mk lo evs = true ↔
-      (hasTooLong evs = true ∨ ∀ e ∈ log, lo < e.pos → mk e.id = true ∨ e.id ∈ dispatchedIds evs) := by
+      (hasTooLong evs = true ∨ ∀ e ∈ log, lo < e.pos → exempt mk e = true ∨ e.id ∈ dispatchedIds evs) := by
   unfold complete'
   simp only [Bool.or_eq_true, List.all_eq_true, decide_eq_true_eq, List.contains_iff_mem]
   constructor
